@@ -79,6 +79,7 @@ class Ctx:
         self.neg_total = 0
         self.extra = {}
         self.drifts = []
+        self.ext = {}
         self.assumptions = []
         self.rule = ""
         self.exhaustive = None
@@ -190,6 +191,11 @@ class Ctx:
         self.violations.append({"clause": clause, "sig": sig, "case": case})
         return True
 
+    def ext_divergence(self, clause, case):
+        """the code diverges from a part of the specification that no listed property covers: recorded, reported as NOTE"""
+        e = self.ext.setdefault(clause, {"count": 0, "example": case})
+        e["count"] += 1
+
     def sample(self, x, limit=6):
         if len(self.samples) < limit:
             self.samples.append(x)
@@ -242,6 +248,10 @@ class Ctx:
             "known_findings_hit": {k: {"what": h["what"], "count": h["count"]} for k, h in self.known_hits.items()},
             "notes": self.notes[:100],
         }
+        if self.ext:
+            cov["extension_divergences"] = self.ext
+            for k, e in sorted(self.ext.items()):
+                lines.append("NOTE spec-extension-divergence property=%s %s (%d case(s)); not a violation: no listed property covers it" % (self.prop, k, e["count"]))
         if self.exhaustive is not None:
             cov["exhaustive"] = bool(self.exhaustive)
         cov.update(self.extra)
